@@ -34,7 +34,9 @@ class int_shim(metaclass=_IntMeta):
     pass
 
 class _StrMeta(type):
-    def __instancecheck__(cls, x): return isinstance(x, (builtins.str, SStr))
+    def __instancecheck__(cls, x):
+        from .bstr import BStr
+        return isinstance(x, (builtins.str, SStr, BStr))
     def __call__(cls, *a): return strs.sstr(*a)
 class str_shim(metaclass=_StrMeta):
     @staticmethod
